@@ -33,10 +33,10 @@ MANIFEST = {
 }
 GEN = ["Eye"]
 MODELS = ["OptiVerif.Model.Eye", "OptiVerif.Model.NumList", "OptiVerif.Model.FiberNL", "OptiVerif.Gen.Eye"]
-RULE = ("cases = two-level NRZ waveforms (random / PRBS7 patterns of 64..256 slots, both symbols present, sps in {8,16,32}, "
+RULE = ("cases = two-level NRZ waveforms (random / PRBS7 patterns of 64..256 slots, one PRBS13 record of 8191 slots (longer than the 4096-slot window), both symbols present, sps in {8,16,32}, "
         "sps_resamp=128 (a few without resampling, tie only), levels a<b with b-a log-uniform in [1e-3,100] V and offsets "
         "{0,-d/2,-3d,+2d} plus pedestals |a|/(b-a) in {30,100,1000} of both signs, noise sigma in [0.5%,5%] of b-a, Bessel LPF at 0.7..1.0 R) each run twice: as is and scaled by "
-        "alpha in [1e-3,1e3] (log-uniform) with an offset beta (up to 1000 swings), same numpy seed; degenerate inputs (constant, single level) for "
+        "alpha in [1e-3,1e3] (log-uniform) with an offset beta (up to 1000 swings, and 1e5..2e7 swings for a few), same numpy seed; degenerate inputs (constant, single level) for "
         "the error branches.  non-trivial = both runs returned finite estimates; distinct by all parameters")
 PARTIAL = ["accuracy clauses (mu within 8 % of b-a, s in [sigma/2, 2 sigma + 3 %], mu0<threshold<mu1 strictly, t_right-t_left within "
            "10 % of 1, t_opt midway within one grid step): oracle under fixed seeds, statistical",
@@ -86,6 +86,20 @@ def gen_cases(rng, tier):
         alpha = 10 ** rng.uniform(-3, 3)
         cases.append({"kind": "eye", "sps": rng.choice([8, 16, 32]), "nsl": 64, "pattern": "prbs", "a": 0.0, "d": d, "sigma": rng.uniform(0.005, 0.05),
                       "bwf": rng.uniform(0.7, 1.0), "alpha": alpha, "beta": ratio * d * alpha, "spsr": 128, "seed": rng.getrandbits(31)})
+    # a small eye on a very large DC level: "offsetting it by ANY beta" (the spreads must survive |beta|/sigma ~ 1e7..1e9)
+    for ratio in ([1e5, -1e6, 2e7] if tier == "quick" else [1e5, -1e5, 1e6, -1e6, 2e7, -2e7] * 3):
+        d = rng.choice([1e-3, 1e-3, 10 ** rng.uniform(-3, 0)])
+        alpha = 10 ** rng.uniform(-3, 3)
+        cases.append({"kind": "eye", "sps": rng.choice([8, 16, 32]), "nsl": 64, "pattern": rng.choice(["random", "prbs"]), "a": rng.choice([0.0, -d / 2]),
+                      "d": d, "sigma": rng.uniform(0.005, 0.05), "bwf": rng.uniform(0.7, 1.0), "alpha": alpha, "beta": ratio * d * alpha,
+                      "spsr": 128, "seed": rng.getrandbits(31)})
+    # records longer than the default 4096-slot window and not a multiple of it (PRBS13 = 8191 slots; 6001 random slots)
+    longrec = [(8, 8191, "prbs13")] if tier == "quick" else [(8, 8191, "prbs13"), (8, 6001, "random"), (16, 5000, "random"), (8, 4097, "random")]
+    for sps, nsl, pat in longrec:
+        d = 10 ** rng.uniform(-3, 2)
+        cases.append({"kind": "eye", "sps": sps, "nsl": nsl, "pattern": pat, "a": rng.choice([0.0, -d / 2, 2 * d]), "d": d,
+                      "sigma": rng.uniform(0.01, 0.04), "bwf": rng.uniform(0.7, 1.0), "alpha": 10 ** rng.uniform(-3, 3), "beta": 0.0,
+                      "spsr": 128, "seed": rng.getrandbits(31)})
     # no resampling / other resampling factors: correspondence only (outside the statement's quantifier)
     for spsr in (None, None, 64, 256):
         cases.append({"kind": "eye", "sps": rng.choice([8, 16, 32]), "nsl": 96, "pattern": "random", "a": 0.0, "d": 1.0, "sigma": 0.02,
@@ -109,6 +123,14 @@ def _bits(case, r):
             nb = st[6] ^ st[5]
             out.append(st[6])
             st = [nb] + st[:6]
+        bits = np.array(out)
+    elif case["pattern"] == "prbs13":
+        st = [1] + [0] * 12          # x^13 + x^12 + x^2 + x + 1, period 8191
+        out = []
+        for _ in range(n):
+            nb = st[12] ^ st[11] ^ st[1] ^ st[0]
+            out.append(st[12])
+            st = [nb] + st[:12]
         bits = np.array(out)
     elif case["pattern"] == "square":
         bits = np.arange(n) % 2
@@ -231,7 +253,9 @@ def _one_run(dev, x, case):
     out["status"] = "ok"
     out["fields"] = {k: (int(getattr(e, k)) if k == "i" else _fl(getattr(e, k, None))) for k in FIELDS}
     out["i_is_int"] = isinstance(getattr(e, "i"), (int, np.integer))
-    out["y"] = [float(v) for v in np.asarray(e.y)]
+    out["ny"] = int(np.size(e.y))
+    out["ymax"] = float(np.max(np.abs(e.y)))
+    out["y"] = [float(v) for v in np.asarray(e.y)] if out["ny"] <= MODEL_MAX_Y else []   # not shipped to the model when huge
     out["sps"] = int(e.sps)
     out["resample"] = ([{"x": [float(v) for v in r["x"]], "num": r["num"]} for r in log["resample"]])
     out["resample_is_y"] = bool(log["resample"] and np.array_equal(log["resample"][-1]["y"], np.asarray(e.y)))
@@ -291,6 +315,10 @@ def _spsr(case):
     return "none" if not case["spsr"] else str(case["spsr"])
 
 
+MODEL_MAX_Y = 70000      # the list-recursive Lean model is not run on the half-million-sample eye of a >4096-slot record:
+                         # there only the part before the resampling is tied; the oracle judges everything
+
+
 def model_requests(case, res):
     if res.get("status") != "ok":
         return []
@@ -298,11 +326,13 @@ def model_requests(case, res):
     for run in _runs(res):
         if len(run["sint"]) != 2 or run["nfits"] < 1:
             continue
-        ny = len(run["y"])
+        ny = run["ny"]
         spse = case["spsr"] or case["sps"]
         nslots = ny // spse
         top, bot = run["sint"][0]["out"], run["sint"][1]["out"]
         reqs.append(f"eye.pre {len(run['x'])} {case['sps']} 4096 {enc_flist(run['x'])}")
+        if ny > MODEL_MAX_Y:
+            continue
         head = f"{nslots} {case['sps']} {_spsr(case)} {enc_f(top[0])} {enc_f(top[1])} {enc_f(bot[0])} {enc_f(bot[1])}"
         reqs.append(f"eye.points {head} {enc_flist(run['y'])}")
         c = run.get("centres")
@@ -326,7 +356,8 @@ def compare(case, res, reqs, replies):
             continue
         tag = f"{which}: "
         y = run["y"]
-        scale = max(1e-300, max(abs(v) for v in y))
+        ny = run["ny"]
+        scale = max(1e-300, run["ymax"])
         spse = case["spsr"] or case["sps"]
         # before the resampling
         rep = next(it)
@@ -350,10 +381,12 @@ def compare(case, res, reqs, replies):
             else:
                 if rolled != y:
                     out.append(tag + "eye.y differs from the model's truncated+rolled input")
-            if ns * spse != len(y):
-                out.append(tag + f"len(y) = {len(y)} but nslots*sps = {ns * spse}")
+            if ns * spse != ny:
+                out.append(tag + f"len(y) = {ny} but nslots*sps = {ns * spse}")
         if not run.get("fit1_is_y", True):
             out.append(tag + "first KMeans fit is not on the waveform")
+        if ny > MODEL_MAX_Y:
+            continue
         for ki in run["km_init"]:
             if ki["k"].get("n_clusters") != 2:
                 out.append(tag + f"KMeans built with {ki}")
@@ -399,8 +432,11 @@ def compare(case, res, reqs, replies):
                 out.append(tag + f"{nm}: model {m[nm]!r} impl {f[nm]!r}")
         if m["i"] != f["i"]:
             out.append(tag + f"i: model {m['i']} impl {f['i']}")
+        swing = abs(m["state1"] - m["state0"])
         for nm in ("mu0", "mu1", "s0", "s1", "eye_h"):
-            if not abs(m[nm] - f[nm]) <= 1e-9 * scale:
+            # means: summation order (n*eps*scale); spreads are computed from deviations, so they are tied relative to the swing
+            tol = 1e-9 * scale if nm in ("mu0", "mu1") else 1e-9 * swing + 1e-12 * scale
+            if not abs(m[nm] - f[nm]) <= tol:
                 out.append(tag + f"{nm}: model {m[nm]!r} impl {f[nm]!r}")
         if (m["threshold"] is None) != (f["threshold"] is None):
             out.append(tag + f"threshold: model {m['threshold']!r} impl {f['threshold']!r}")
